@@ -14,6 +14,7 @@ from fractions import Fraction as F
 import core
 import fracexec
 import v4_util as V4
+import w4_util as W4
 from fracexec import frac_str, frac_list
 
 EPS = F(1, 10 ** 10)
@@ -1099,6 +1100,17 @@ def run_all_timesteps(chk):
             gp.refHeight = href
             o = RSMDef(m.lat, m.lon, m.gmt, m.h_obs, m.weather.staTemp[0], m.weather.staPres[0], gp, m.Z_MESO_PATH)
             objs.append(('RSMDef(refHeight %g m: %d levels)' % (href, o.nzref), o, gp, rows))
+    # (e) rural columns built by the real constructor from FINER mesoscale height files handed over through its public
+    # `z_meso_path` argument (what `UWG.Z_MESO_PATH` feeds it): 76 .. 601 levels, on both sides of 256 / 257 / 258
+    fine_objs = []
+    m0 = m
+    for label, spacing, fine_top, href, nlev in (W4.FINE_MESO[:3] if quick else W4.FINE_MESO):
+        path = os.path.join(chk.work(), 'z_meso_fine_%s_%s.txt' % (spacing, href))
+        W4.write_z_meso(path, spacing, fine_top)
+        gp = copy.copy(m0.geoParam)
+        gp.refHeight = href
+        o = RSMDef(m0.lat, m0.lon, m0.gmt, m0.h_obs, m0.weather.staTemp[0], m0.weather.staPres[0], gp, path)
+        fine_objs.append(('RSMDef(z_meso_path = a file with %s: %d levels)' % (label, o.nzref), o, gp, rows))
     bad, br, nsteps = [], {}, [0]
 
     def step(o, gp, rows, dt, s, what, case):
@@ -1189,6 +1201,13 @@ def run_all_timesteps(chk):
                     bad.append((dict(case, object=what, **{'time steps': dts}),
                                 'after the interrupted call was caught and the steps repeated normally, the profiles differ '
                                 'from those of an identical object that was never interrupted'))
+        # (e) the columns from finer height files: a few steps at a few legal time steps each, one object throughout
+        for what, o0, gp, rows in fine_objs:
+            o = copy.deepcopy(o0)
+            for s, dt in enumerate((300, 300, 60, 900, 3600, 225) if quick else (300, 300, 60, 900, 3600, 225, 1, 80, 1800, 300, 300, 300)):
+                step(o, gp, rows, float(dt), s, what, {'family': 'finer mesoscale height file through z_meso_path'})
+            key = 'fine-z_meso:%d levels' % o0.nzref
+            br[key] = br.get(key, 0) + 1
     finally:
         RSMDef.diffusion_coefficient = o_coef
         RSMDef.diffusion_equation = o_eq
@@ -1209,10 +1228,13 @@ def run_all_timesteps(chk):
                'descending and shuffled, (c) objects of different size stepped alternately in both orders, bit-identical '
                'to twins stepped alone, (d) a step interrupted by KeyboardInterrupt / SystemExit / GeneratorExit raised inside '
                'vdm (before the coefficients / right before the solve), caught, then the normal sequence: bit-identical to a '
-               'twin never interrupted. After every call, from the pre-state and the step\'s own dt only: bottom, top, '
+               'twin never interrupted, (e) rural columns built by the real constructor from FINER mesoscale height files '
+               'through its public z_meso_path argument (1 m / 0.5 m / 2 m / 0.25 m levels: %s levels - both sides of 256 / '
+               '257 / 258), one object through several legal time steps. After every call, from the pre-state and the step\'s own dt only: bottom, top, '
                'bounds, and level by level da dz (new - old) = dt x (flux in - flux out) of the new profile (1e-9), i.e. '
                'exact solution for the whole step and conservation with respect to the time step'
-               % (sorted(set(o.nzref for _, o, _, _ in objs)), per), mismatches=len(bad), branches=br)
+               % (sorted(set(o.nzref for _, o, _, _ in objs)), per, sorted(set(o.nzref for _, o, _, _ in fine_objs))),
+               mismatches=len(bad), branches=br)
 
 
 def case_json(cs):
